@@ -327,9 +327,15 @@ mod imp {
                         let st = &sh2.callers[c];
                         let n = st.holds_seen.fetch_add(1, Ordering::SeqCst) + 1;
                         st.held.store(true, Ordering::SeqCst);
-                        let deadline = Instant::now() + PATIENCE;
+                        // spin at first, so that threads released together go on together
+                        let begin = Instant::now();
+                        let deadline = begin + PATIENCE;
                         while st.release.load(Ordering::SeqCst) < n && Instant::now() < deadline {
-                            std::thread::sleep(Duration::from_micros(200));
+                            if begin.elapsed() < Duration::from_millis(60) {
+                                std::hint::spin_loop();
+                            } else {
+                                std::thread::sleep(Duration::from_micros(200));
+                            }
                         }
                         st.held.store(false, Ordering::SeqCst);
                     }
